@@ -65,6 +65,14 @@ def gen_cases(rng, tier):
         for d2 in PROMO:
             if tier == 'quick' and rng.random() < 0.7: continue
             yield {'op': 'promote', 'd1': d1, 'd2': d2, 'f': rng.choice(['mul', 'mul', 'add', 'sub'])}
+    # scaled dtypes in equals() and with array.array operands (D68, D69): two Arrays holding the same codes under different scales have different items;
+    # an array.array given to a scaled Array (constructor / extend) contributes its VALUES, like a list
+    for _ in range(40 if tier == 'quick' else 600):
+        nm, code = rng.choice([('uint8', 'B'), ('int8', 'b'), ('uintne16', 'H'), ('intne16', 'h'), ('uintne32', 'I'), ('intne32', 'i'), ('floatne32', 'f'), ('floatne64', 'd')])
+        fl = nm.startswith('float')
+        ks = [rng.randrange(0, 8 if nm.endswith('8') else 20) for _ in range(rng.randrange(0, 4))]
+        yield {'op': 'scaled', 'name': nm, 'code': code, 's1': rng.choice([None, 2, 4, 0.5, 2.0]), 's2': rng.choice([None, 2, 4, 0.5, 2.0]), 'ks': [float(k) for k in ks] if fl else ks,
+               'how': rng.choice(['equals', 'equals', 'init_array', 'extend_array'])}
     # ... and for dtypes that differ only in their scale (same name and length: "a tie goes to the first", D62), or in scale and something else
     for d1, d2 in (('uint8', 'uint8'), ('int16', 'int16'), ('float16', 'float16'), ('uint8', 'uintbe8'), ('uint8', 'int8'), ('uint16', 'uint8'), ('float32', 'int16'), ('e4m3mxfp', 'e4m3mxfp')):
         for s1, s2 in ((2, 4), (4, 2), (None, 2), (2, None), (2, 2)):
@@ -382,6 +390,19 @@ def apply_impl(a, st, rng):
 def run_impl(c):
     import bitstring, random
     from bitstring import Array, Bits
+    if c['op'] == 'scaled':
+        import array as _array
+        D = lambda sc: bitstring.Dtype(c['name'], scale=sc) if sc is not None else bitstring.Dtype(c['name'])
+        def f():
+            if c['how'] == 'equals':
+                a = Array(D(c['s1']), [k * (c['s1'] or 1) for k in c['ks']]); b = Array(D(c['s2']), [k * (c['s2'] or 1) for k in c['ks']])
+                return [a.equals(b), b.equals(a), a.data.bin == b.data.bin, [cv(x) for x in a.tolist()], [cv(x) for x in b.tolist()]]
+            src = _array.array(c['code'], [k * 4 for k in c['ks']])          # multiples of every scale used, so that value / scale is exact
+            if c['how'] == 'init_array': a = Array(D(c['s1']), src)
+            else:
+                a = Array(D(c['s1'])); a.extend(src)
+            return [[cv(x) for x in a.tolist()], [cv(x) for x in src.tolist()]]
+        return attempt(f)
     if c['op'] == 'promote':
         def one(d, sc=None):
             a = Array(d)
@@ -484,6 +505,19 @@ def promo_rule(d1, d2, s1=None, s2=None):
     return t2 if t2.length > t1.length else t1
 
 def oracle_(c, obs):
+    if c['op'] == 'scaled':
+        if obs[0] != 'ok': return f"{c}: raised {obs[1]}"
+        o = obs[1]
+        if c['how'] == 'equals':
+            same = (c['s1'] is None and c['s2'] is None) or (c['s1'] is not None and c['s2'] is not None and c['s1'] == c['s2'])
+            mixed = (c['s1'] is None) != (c['s2'] is None)
+            if o[0] != o[1]: return f"{c}: a.equals(b) = {o[0]} but b.equals(a) = {o[1]}"
+            if same and o[0] is not True: return f"{c}: the same dtype, scale and items, yet equals() is {o[0]}"
+            if not same and not mixed and [pv(x) for x in o[3]] != [pv(x) for x in o[4]] and o[0] is not False: return f"{c}: the items are {o[3]} and {o[4]} (same codes, different scales), yet equals() is {o[0]}"
+            if mixed and (c['s1'] or c['s2']) != 1 and [pv(x) for x in o[3]] != [pv(x) for x in o[4]] and o[0] is not False: return f"{c}: the items are {o[3]} and {o[4]} (scaled against unscaled), yet equals() is {o[0]}"
+            return None
+        if len(o[0]) != len(o[1]) or any(pv(x) != pv(y) for x, y in zip(o[0], o[1])): return f"{c}: an array.array of {o[1]} given to the scaled Array reads back as {o[0]}: its values, not its raw items, are what a list of them would give"
+        return None
     if c['op'] == 'promote':
         exp = promo_rule(c['d1'], c['d2'], c.get('s1'), c.get('s2'))
         if exp is None:
@@ -744,6 +778,7 @@ AOPS = {'add': 'AAdd', 'radd': 'AAdd', 'sub': 'ASub', 'mul': 'AMul', 'rmul': 'AM
 def coq_check(c, obs):
     """index / assignment / deletion / insert / append on the data bits, for dtypes whose item is w bits; the element-wise loops of ArrayOps.v
     for int items (scalar, in-place and Array-Array operators, comparisons) and the promotion function"""
+    if c['op'] == 'scaled': return None
     if c['op'] == 'promote':
         from bitstring import Array, Dtype
         t1 = Dtype(c['d1'], scale=c['s1']) if c.get('s1') is not None else Array(c['d1']).dtype
